@@ -187,8 +187,13 @@ pub fn check_class_method(ctx: &mut Ctx, c: u8, m: u16) {
             w,
             class_num(t.class()),
             t.method(),
-            t.has_class(class_from(c)) && t.is_response() == (c >= 2),
-            t.has_method(m),
+            t.has_class(class_from(c)) && t.is_response() == (c >= 2) && (0..4u8).all(|o| t.has_class(class_from(o)) == (o == c)),
+            // it has exactly one method: not its neighbours, not values that agree with it in some of
+            // their bits, not 16-bit values beyond the 12-bit range whose low bits are m
+            t.has_method(m)
+                && [m ^ 1, m ^ 0x80, m ^ 0x800, m.wrapping_add(1) & 0xfff, m | 0x1000, m | 0x8000, m | 0xf000, m.wrapping_add(0x1000), want_field_of(c, m)]
+                    .iter()
+                    .all(|q| *q == m || !t.has_method(*q)),
             parsed,
             format!("{t}").len(),
         )
@@ -230,6 +235,10 @@ pub fn check_class_method(ctx: &mut Ctx, c: u8, m: u16) {
             }
         }
     }
+}
+
+fn want_field_of(c: u8, m: u16) -> u16 {
+    type_field(c, m)
 }
 
 /// The type field as it appears in bytes 0..2 of messages: built directly (empty, small, and with a
